@@ -703,10 +703,15 @@ impl Prune for FloatLinLe {
                 let max_val = remaining / coeff;
                 // Only tighten if the new bound is finite and improves current bound
                 if max_val.is_finite() {
-                    if let Val::ValF(current_max) = var_id.max(ctx) {
-                        if max_val < current_max {
-                            var_id.try_set_max(Val::ValF(max_val), ctx)?;
-                        }
+                    // Integer variables are bounded by the row as well: `try_set_max` floors a float
+                    // bound for them (it used to be applied to float variables only, so a row over
+                    // integer variables was never enforced)
+                    let current_max = match var_id.max(ctx) {
+                        Val::ValF(f) => f,
+                        Val::ValI(i) => i as f64,
+                    };
+                    if max_val < current_max {
+                        var_id.try_set_max(Val::ValF(max_val), ctx)?;
                     }
                 }
             } else {
@@ -716,10 +721,13 @@ impl Prune for FloatLinLe {
                 let normalized_min = if min_val == 0.0 { 0.0 } else { min_val };
                 // Only tighten if the new bound is finite and improves current bound
                 if normalized_min.is_finite() {
-                    if let Val::ValF(current_min) = var_id.min(ctx) {
-                        if normalized_min > current_min {
-                            var_id.try_set_min(Val::ValF(normalized_min), ctx)?;
-                        }
+                    // Integer variables as well: `try_set_min` takes the ceiling of a float bound
+                    let current_min = match var_id.min(ctx) {
+                        Val::ValF(f) => f,
+                        Val::ValI(i) => i as f64,
+                    };
+                    if normalized_min > current_min {
+                        var_id.try_set_min(Val::ValF(normalized_min), ctx)?;
                     }
                 }
             }
